@@ -35,76 +35,12 @@ HM = "std::collections::HashMap::<K, V, S, A>::"
 HS = "std::collections::HashSet::<T, S, A>::"
 
 
-def run(ctx):
-    r6_cache_fill(ctx)
+def merge_rules(ctx, fn, body, header, merged):
+    """R2 (first writer wins in the merged maps), R2b (scalar fields) and R3 (one key space) on the code that runs once per
+    revision of the newest-first chain: `body` of `fn`, entered at `header`, `merged` = locals holding the merged table"""
     facts = ctx.facts
-    fid = X + "parse_with_incremental_updates_options"
-    fn = ctx.fn(fid, "anchor")
-    g = CF.cfg(fn)
     fl = FL.flow(fn)
-    loops = g.loops()
-    pp = L.calls_to(fn, [X + "parse_primary_with_options"])
-    if not ctx.floor("R1", "section parse call in the chain walk", len(pp), 1):
-        return
-    pb = pp[0][0]
-    inl = [(h, body) for h, body in loops.items() if pb in body]
-    if not ctx.floor("R1", "chain loop around the section parse", len(inl), 1):
-        return
-    header, body = max(inl, key=lambda x: len(x[1]))
-    # R1 start offset
-    fx = L.calls_to(fn, [X + "find_xref_offset"])
-    if fx:
-        ctx.ok("R1", "chain:start=find_xref_offset", "", fn.where(fx[0][0]))
-    else:
-        ctx.violation("R1", "chain:start=find_xref_offset", "the chain walk does not start at the startxref offset", fn.where())
-    # Prev key read (in a closure)
-    prev = [s for f in L.group(facts, fid) for b, s, c in L.str_args(f, ["PdfDictionary::get"]) if s == "Prev"]
-    if prev:
-        ctx.ok("R1", "chain:next=/Prev", "")
-    else:
-        ctx.violation("R1", "chain:next=/Prev", "the /Prev key of the parsed section is never read: older revisions are not merged", fn.where())
-    # the seek target inside the loop must not be a constant and must depend on the loop-carried offset
-    seeks = [(b, c, a, d) for b, c, a, d in L.calls_to(fn, ["std::io::Seek::seek"]) if b in body]
-    ctx.floor("R1", "seek inside the chain loop", len(seeks), 1)
-    # visited guard
-    vis = [(b, c, a, d) for b, c, a, d in L.calls_to(fn, [HS + "contains", HS + "insert"]) if b in body]
-    guard_ok = False
-    for b, c, a, d in vis:
-        te, fe = L.bool_edges(fn, d[0])
-        for (s, t) in te + fe:
-            # one edge of the test leaves the loop
-            if t not in body or (g.reachable_from(t, avoid_blocks=[header]) and pb not in g.reachable_from(t, avoid_blocks=[header])):
-                guard_ok = True
-    if guard_ok:
-        ctx.ok("R1", "chain:visited-guard", "a visited-offset test controls an exit of the loop", fn.where(header))
-    else:
-        ctx.violation("R1", "chain:visited-guard", "no visited-offset test leaves the chain loop: a /Prev cycle never terminates",
-                      fn.where(header))
-    # merged local: the XRefTable local that is moved into the function's Ok(..) result
-    merged = []
-    for b, blk in enumerate(fn.blocks):
-        for st in blk[0]:
-            rv = st[2]
-            if st[1] == [0, []] and rv[0] == "agg" and rv[1][0] == "adt" and rv[1][2] == "Ok":
-                for o in rv[2]:
-                    p = FL.op_place(o)
-                    if p and not p[1] and fn.locals[p[0]] == "parser::xref::XRefTable":
-                        merged.append(p[0])
-    # follow plain moves backwards (`_225 = move _12`)
-    changed = True
-    while changed:
-        changed = False
-        for b, blk in enumerate(fn.blocks):
-            for st in blk[0]:
-                if st[1][0] in merged and not st[1][1] and st[2][0] == "use":
-                    p = FL.op_place(st[2][1])
-                    if p and not p[1] and p[0] not in merged and fn.locals[p[0]] == "parser::xref::XRefTable":
-                        merged.append(p[0])
-                        changed = True
-    if not ctx.floor("R2", "merged table local", len(merged), 1):
-        return
-    merged = set(merged)
-
+    g = CF.cfg(fn)
     def on_merged(args, field=None):
         r = L.recv_of(fn, args)
         if r is None or r[0] not in merged:
@@ -223,6 +159,93 @@ def run(ctx):
                            "path_lines": [fn.line(x) for x in w][:12]})
         else:
             ctx.ok("R3", key, "guarded by a lookup in merged.entries", fn.where(b))
+
+
+def run(ctx):
+    r6_cache_fill(ctx)
+    facts = ctx.facts
+    fid = X + "parse_with_incremental_updates_options"
+    fn = ctx.fn(fid, "anchor")
+    g = CF.cfg(fn)
+    fl = FL.flow(fn)
+    loops = g.loops()
+    pp = L.calls_to(fn, [X + "parse_primary_with_options"])
+    if not ctx.floor("R1", "section parse call in the chain walk", len(pp), 1):
+        return
+    pb = pp[0][0]
+    inl = [(h, body) for h, body in loops.items() if pb in body]
+    if not ctx.floor("R1", "chain loop around the section parse", len(inl), 1):
+        return
+    header, body = max(inl, key=lambda x: len(x[1]))
+    # R1 start offset
+    fx = L.calls_to(fn, [X + "find_xref_offset"])
+    if fx:
+        ctx.ok("R1", "chain:start=find_xref_offset", "", fn.where(fx[0][0]))
+    else:
+        ctx.violation("R1", "chain:start=find_xref_offset", "the chain walk does not start at the startxref offset", fn.where())
+    # Prev key read (in a closure)
+    prev = [s for f in L.group(facts, fid) for b, s, c in L.str_args(f, ["PdfDictionary::get"]) if s == "Prev"]
+    if prev:
+        ctx.ok("R1", "chain:next=/Prev", "")
+    else:
+        ctx.violation("R1", "chain:next=/Prev", "the /Prev key of the parsed section is never read: older revisions are not merged", fn.where())
+    # the seek target inside the loop must not be a constant and must depend on the loop-carried offset
+    seeks = [(b, c, a, d) for b, c, a, d in L.calls_to(fn, ["std::io::Seek::seek"]) if b in body]
+    ctx.floor("R1", "seek inside the chain loop", len(seeks), 1)
+    # visited guard
+    vis = [(b, c, a, d) for b, c, a, d in L.calls_to(fn, [HS + "contains", HS + "insert"]) if b in body]
+    guard_ok = False
+    for b, c, a, d in vis:
+        te, fe = L.bool_edges(fn, d[0])
+        for (s, t) in te + fe:
+            # one edge of the test leaves the loop
+            if t not in body or (g.reachable_from(t, avoid_blocks=[header]) and pb not in g.reachable_from(t, avoid_blocks=[header])):
+                guard_ok = True
+    if guard_ok:
+        ctx.ok("R1", "chain:visited-guard", "a visited-offset test controls an exit of the loop", fn.where(header))
+    else:
+        ctx.violation("R1", "chain:visited-guard", "no visited-offset test leaves the chain loop: a /Prev cycle never terminates",
+                      fn.where(header))
+    # merged local: the XRefTable local that is moved into the function's Ok(..) result
+    merged = []
+    for b, blk in enumerate(fn.blocks):
+        for st in blk[0]:
+            rv = st[2]
+            if st[1] == [0, []] and rv[0] == "agg" and rv[1][0] == "adt" and rv[1][2] == "Ok":
+                for o in rv[2]:
+                    p = FL.op_place(o)
+                    if p and not p[1] and fn.locals[p[0]] == "parser::xref::XRefTable":
+                        merged.append(p[0])
+    # follow plain moves backwards (`_225 = move _12`)
+    changed = True
+    while changed:
+        changed = False
+        for b, blk in enumerate(fn.blocks):
+            for st in blk[0]:
+                if st[1][0] in merged and not st[1][1] and st[2][0] == "use":
+                    p = FL.op_place(st[2][1])
+                    if p and not p[1] and p[0] not in merged and fn.locals[p[0]] == "parser::xref::XRefTable":
+                        merged.append(p[0])
+                        changed = True
+    if not ctx.floor("R2", "merged table local", len(merged), 1):
+        return
+    merged = set(merged)
+
+    # R2/R2b/R3 are decided where the merge is written: in the chain loop itself, or — when the loop body hands the merged table
+    # to a crate-local helper (`merged.merge_older_revision(table)`) — in that helper, whose whole body then runs once per revision
+    site = (fn, body, header, merged)
+    direct = [1 for b, c, a, d in L.calls_to(fn, [HM + "insert", HM + "entry", HM + "extend"])
+              if b in body and (L.recv_of(fn, a) or [None])[0] in merged]
+    if not direct:
+        for b, c, a, d, t, u in fn.calls():
+            f2 = facts.fns.get(c.get("r")) if isinstance(c, dict) else None
+            r = L.recv_of(fn, a) if a else None
+            if b in body and f2 is not None and r and r[0] in merged and not r[1] and f2.params and "XRefTable" in f2.params[0] \
+                    and L.calls_to(f2, [HM + "insert", HM + "entry", HM + "extend"]):
+                site = (f2, set(range(len(f2.blocks))), 0, {1})
+                ctx.note("the per-revision merge is delegated to %s: R2/R3 are decided on its body" % L.short(f2.id))
+                break
+    merge_rules(ctx, *site)
     # R4 loader
     lf = ctx.fn("parser::reader::PdfReader::<R>::load_object_from_disk", "R4")
     gl = CF.cfg(lf)
